@@ -27,6 +27,7 @@ CONFIGS = {
     "asm-clang":   ("clang++", ["-Ofast", "-fno-vectorize"], True),      # the Makefile's flags
     "asm-O0":      ("g++",     ["-O0"], True),
     "asm-uchar":   ("g++",     ["-O2", "-funsigned-char"], True),           # plain char is unsigned on the ARM targets
+    "asm-bmi2":    ("g++",     ["-O2", "-mbmi2", "-madx"], True),           # compile-time selection of the BMI2/ADX routines (#ifdef __BMI2__ in include/core/arch/x86_64), e.g. -march=native
     "asm-ndebug":  ("g++",     ["-O2", "-DNDEBUG"], True),                # release builds define NDEBUG: assert() must not carry behaviour
     "portable32-ndebug": ("g++", ["-O2", "-DNDEBUG", "-DDISABLE_ASM", "-U__SIZEOF_INT128__"], False),
     "portable64":  ("g++",     ["-O2", "-DDISABLE_ASM"], False),
